@@ -215,26 +215,45 @@ impl ExactSizeIterator for OsuGradualDifficulty {
 }
 
 mod osu_objects {
-    use std::pin::Pin;
+    use std::{pin::Pin, ptr::NonNull};
 
     use crate::osu::object::OsuObject;
 
     /// Wrapper to ensure that the data will not be moved
     pub(super) struct OsuObjects {
-        objects: Box<[OsuObject]>,
+        // Raw pointer instead of `Box` because moving a `Box` asserts unique
+        // access to its content which would invalidate the references stored
+        // in `OsuGradualDifficulty::diff_objects`.
+        objects: NonNull<[OsuObject]>,
     }
 
+    // SAFETY: `OsuObjects` owns its objects just like `Box<[OsuObject]>` does.
+    unsafe impl Send for OsuObjects where Box<[OsuObject]>: Send {}
+    unsafe impl Sync for OsuObjects where Box<[OsuObject]>: Sync {}
+
     impl OsuObjects {
-        pub(super) const fn new(objects: Box<[OsuObject]>) -> Self {
-            Self { objects }
+        pub(super) fn new(objects: Box<[OsuObject]>) -> Self {
+            Self {
+                objects: NonNull::from(Box::leak(objects)),
+            }
         }
 
         pub(super) const fn is_empty(&self) -> bool {
-            self.objects.is_empty()
+            self.objects.len() == 0
         }
 
         pub(super) fn iter_mut(&mut self) -> impl ExactSizeIterator<Item = Pin<&mut OsuObject>> {
-            self.objects.iter_mut().map(Pin::new)
+            // SAFETY: The pointer stems from a leaked `Box` and is only
+            // released on drop.
+            unsafe { self.objects.as_mut() }.iter_mut().map(Pin::new)
+        }
+    }
+
+    impl Drop for OsuObjects {
+        fn drop(&mut self) {
+            // SAFETY: The pointer stems from a leaked `Box` and nothing
+            // accesses the objects after this point.
+            drop(unsafe { Box::from_raw(self.objects.as_ptr()) });
         }
     }
 }
